@@ -54,6 +54,7 @@ type Contract struct {
 	Lemma    bool
 	FieldFunc bool // contract of a function-typed struct field (pure, assumed)
 	FuncType  bool // assumed contract of the values of a named function type
+	SigKey    string // "(paramtypes)(resulttypes)" as written in the header
 	Props    []string
 	Requires []*Clause
 	Ensures  []*Clause
@@ -424,24 +425,30 @@ func parseHeader(hdr string) (*Contract, error) {
 			c.Params = append(c.Params, "_recv")
 		}
 	}
+	var pt, rt []string
 	for _, p := range fd.Type.Params.List {
 		if len(p.Names) == 0 {
 			c.Params = append(c.Params, "_")
+			pt = append(pt, exprString(p.Type))
 		}
 		for _, n := range p.Names {
 			c.Params = append(c.Params, n.Name)
+			pt = append(pt, exprString(p.Type))
 		}
 	}
 	if fd.Type.Results != nil {
 		for i, p := range fd.Type.Results.List {
 			if len(p.Names) == 0 {
 				c.Results = append(c.Results, fmt.Sprintf("result%d", i))
+				rt = append(rt, exprString(p.Type))
 			}
 			for _, n := range p.Names {
 				c.Results = append(c.Results, n.Name)
+				rt = append(rt, exprString(p.Type))
 			}
 		}
 	}
+	c.SigKey = "(" + strings.Join(pt, ",") + ")(" + strings.Join(rt, ",") + ")"
 	return c, nil
 }
 
